@@ -599,12 +599,52 @@ def xmlTripleBack (t : Triple) : Triple :=
   | .lit l => { t with o := .lit (xmlLitBack l) }
   | _ => t
 
+/-! #### names RDF/XML reserves (`rio_xml` parser: `RESERVED_RDF_ELEMENTS`, `rdf:Description`, `rdf:li`) -/
+
+def rdfNs : Str :=
+  ['h','t','t','p',':','/','/','w','w','w','.','w','3','.','o','r','g','/','1','9','9','9','/','0','2','/','2','2','-','r','d','f','-','s','y','n','t','a','x','-','n','s','#']
+
+def rdfLi : Str := rdfNs ++ ['l','i']
+
+/-- local names the parser refuses as property element names (`rdf:li` is rewritten instead) -/
+def rdfReservedLocals : List Str :=
+  [['a','b','o','u','t'], ['a','b','o','u','t','E','a','c','h'], ['a','b','o','u','t','E','a','c','h','P','r','e','f','i','x'], ['b','a','g','I','D'], ['d','a','t','a','t','y','p','e'],
+   ['I','D'], ['n','o','d','e','I','D'], ['p','a','r','s','e','T','y','p','e'], ['R','D','F'], ['r','e','s','o','u','r','c','e'], ['D','e','s','c','r','i','p','t','i','o','n']]
+
+/-- the namespace no prefix may be bound to (the formatter's `prop:` fallback binds it when the
+predicate is exactly this IRI) -/
+def xmlnsNs : Str :=
+  ['h','t','t','p',':','/','/','w','w','w','.','w','3','.','o','r','g','/','2','0','0','0','/','x','m','l','n','s','/']
+
+/-- predicates the formatter writes as an element the parser then rejects -/
+def xmlPredBad (p : Str) : Bool := rdfReservedLocals.any (fun l => p == rdfNs ++ l) || p == xmlnsNs
+
+def digitChar (n : Nat) : Char := Char.ofNat (48 + n % 10)
+def natStrFuel : Nat → Nat → Str → Str
+  | 0, _, acc => acc
+  | f + 1, n, acc => if n < 10 then digitChar n :: acc else natStrFuel f (n / 10) (digitChar n :: acc)
+def natStr (n : Nat) : Str := natStrFuel (n + 1) n []
+
+/-- what the parser hands back, triple by triple: literals through the text rule, and every
+`rdf:li` property renumbered `rdf:_1`, `rdf:_2`, … within its `rdf:Description` element (the
+formatter opens a new element whenever the subject changes) -/
+def xmlBackFrom (cur : Option Subj) (k : Nat) : List Triple → List Triple
+  | [] => []
+  | t :: ts =>
+    let k0 := if cur = some t.s then k else 0
+    if t.p = rdfLi then
+      { xmlTripleBack t with p := rdfNs ++ '_' :: natStr (k0 + 1) } :: xmlBackFrom (some t.s) (k0 + 1) ts
+    else xmlTripleBack t :: xmlBackFrom (some t.s) k0 ts
+
+def xmlBack (ts : List Triple) : List Triple := xmlBackFrom none 0 ts
+
 /-- predicted outcome of the real pipeline, per format (model of the pinned tree) -/
 def predict (f : Fmt) (ts : List Triple) : Outcome :=
   match f with
   | .nt => (match parseDoc (renderDoc ts) with | some b => .back b | none => .parseErr)
   | .ttl => (match ttlParse (ttlRender ts) with | some b => .back b | none => .parseErr)
-  | .xml => if anyBnodeBad isNcName ts then .parseErr else .back (ts.map xmlTripleBack)
+  | .xml =>
+    if anyBnodeBad isNcName ts || ts.any (fun t => xmlPredBad t.p) then .parseErr else .back (xmlBack ts)
 
 def subsetOf (a b : List Triple) : Bool := a.all (fun x => b.contains x)
 def setEq (a b : List Triple) : Bool := subsetOf a b && subsetOf b a
@@ -648,12 +688,18 @@ def spec (f : Fmt) (ts : List Triple) : Outcome → Verdict
   | .serErr => (match f with | .xml => .ok | _ => .viol "ser-error")
   | .parseErr =>
     (match f with
-      | .xml => if anyBnodeBad isNcName ts then .viol "bnode-not-ncname" else .viol "parse-error"
+      | .xml =>
+        if anyBnodeBad isNcName ts then .viol "bnode-not-ncname"
+        else if ts.any (fun t => xmlPredBad t.p) then .viol "reserved-predicate"
+        else .viol "parse-error"
       | _ => if anyBnodeBad bnodeOK ts then .viol "bnode-label" else .viol "parse-error")
   | .back b =>
     if sameUpToBnodes ts b then .ok
-    else if f = .xml && setEq b (ts.map xmlTripleBack) && ts.any (fun t => match t.o with | .lit l => litWsOnly l | _ => false)
-      then .viol "whitespace-only-literal"
+    else if f = .xml && setEq b (xmlBack ts) then
+      (if ts.any (fun t => t.p == rdfLi) then .viol "rdf-li-renumbered"
+       else if ts.any (fun t => match t.o with | .lit l => litWsOnly l | _ => false)
+         then .viol "whitespace-only-literal"
+       else .viol "set-differs")
     else .viol "set-differs"
 
 end SgModel.Rdf
